@@ -15,3 +15,31 @@ package bootstrapping
 //@   property C18
 //@   requires !sparsekey(skDense)
 //@   ensures true
+
+// ---------------------------------------------------------------------------------------------
+// Serialization, count level (property C08).  For every serializable type: WriteTo reports, on
+// success, exactly the number of bytes the value announces (announced(x): the result of running
+// x.BinarySize() on the same state) and leaves nothing unflushed in the buffered writer
+// (pending(w) == 0); ReadFrom reports, on success, exactly the announced size of the object it
+// rebuilt, whatever the receiver held before.  bsize(x) is the abstract announced size used at
+// call sites.  `nilable`: optional pointer fields of the inputs may be nil.
+// ---------------------------------------------------------------------------------------------
+
+//@ afunc EvaluationKeys.BinarySize
+//@   trusted definition: bsize(x) is what x.BinarySize() returns, assumed to be a function of the contents of x
+//@   ensures result == bsize(b) && 0 <= result
+
+//@ afunc EvaluationKeys.WriteTo
+//@   property C08
+//@   maxpaths 6000
+//@   nilable
+//@   gset pending(w) = *
+//@   ensures implies(isnil(err), n == announced(b))
+//@   ensures implies(isnil(err), pending(w) == 0)
+
+//@ afunc EvaluationKeys.ReadFrom
+//@   property C08
+//@   maxpaths 6000
+//@   nilable
+//@   havoc b
+//@   ensures implies(isnil(err), n == announced(b))
